@@ -7,6 +7,7 @@ import ZnVerif.Ops.Run
 import ZnVerif.Ops.C12
 import ZnVerif.Ops.C17
 import ZnVerif.Ops.C06
+import ZnVerif.Ops.C19
 
 open ZnVerif.Ops
 
@@ -16,7 +17,8 @@ def handlers : List (String → List String → Option String) := [
   Run.handle,
   C12.handle,
   C17.handle,
-  C06.handle
+  C06.handle,
+  C19.handle
 ]
 
 def dispatch (op : String) (args : List String) : String :=
